@@ -285,6 +285,36 @@ pub fn module_items() -> Vec<Item> {
     out
 }
 
+/// Expressions that each look something up in a process-wide table by a key
+/// (built-in function by exact / caseless / unknown name, colour by name,
+/// built-in module by name): concurrent compilations that hammer the same
+/// tables with different keys are what a shared lookup cache must survive.
+const STORM: [&str; 30] = [
+    "floor(1.5)", "FLOOR(2.5)", "Floor(3.5)", "ceil(1.2)", "CEIL(1.2)", "rgb(1, 2, 3)", "RGB(1, 2, 3)",
+    "Rgb(4, 5, 6)", "translate(1px)", "TRANSLATE(2px)", "var(--x)", "VAR(--y)", "unknownfn(1)", "Unknownfn(2)",
+    "percentage(0.5)", "PERCENTAGE(0.25)", "quote(a)", "QUOTE(b)", "length(1 2 3)", "LENGTH(1 2)",
+    "if(true, 1, 2)", "IF(false, 1, 2)", "mix(red, blue)", "MIX(RED, BLUE)", "red", "RED", "Blue", "rebeccapurple",
+    "math.floor(7.5)", "meta.function-exists(\"CEIL\")",
+];
+
+/// A program made of runs of the same lookup followed by a different one.
+pub fn lookup_storm(rng: &mut Rng) -> Item {
+    let mut src = String::from("@use \"sass:math\";\n@use \"sass:meta\";\na {\n");
+    let n = 3 + rng.usize(8);
+    let mut tag = Digest::new();
+    let mut p = 0;
+    for _ in 0..n {
+        let e = rng.pick(&STORM);
+        tag.str(e);
+        for _ in 0..1 + rng.usize(3) {
+            src.push_str(&format!("  p{p}: {e};\n"));
+            p += 1;
+        }
+    }
+    src.push_str("}\n");
+    Item::simple(&format!("storm-{}", crate::hex(tag.finish())), &src)
+}
+
 #[derive(Clone)]
 pub struct CorpusCase {
     pub item: Item,
@@ -353,7 +383,8 @@ pub fn sibling_of(it: &Item, rng: &mut Rng) -> Option<Item> {
 
 /// Draw one workload item.
 pub fn draw_item(rng: &mut Rng) -> Item {
-    let mut it = match rng.below(10) {
+    let mut it = match rng.below(11) {
+        10 => lookup_storm(rng),
         0 | 1 => Item::simple("probe", &probe_program(rng.below(2))),
         2 | 3 => {
             let a = attack_programs();
